@@ -366,7 +366,9 @@ for nm, what, q in (("c01_store_load_queue_first_same", "queued 16, lookup 16", 
     h("C01", "foyer-storage", ST, nm, "L2 write queue consulted first; colliding twin not aliased", STF, what + "; queued value symbolic", quick=q, tq=600, tt=1800, unwind=6, miri=True, extra_props=["C17"], exp=True)
 for nm, what, q in (("c12_store_enqueue_admit", "filter admits", True), ("c12_store_enqueue_reject", "filter rejects", True), ("c12_store_enqueue_throttled", "filter throttles", True),
                     ("c12_store_enqueue_forced_reject", "forced although the filter rejects", True)):
-    h("C12", "foyer-storage", ST, nm, "E1 admission decision of Store::enqueue", STF, what + "; key and value symbolic", quick=q, tq=600, tt=1800, unwind=6, miri=True, exp=(nm in ("c12_store_enqueue_admit", "c12_store_enqueue_forced_reject")))
+    h("C12", "foyer-storage", ST, nm, "E1 admission decision of Store::enqueue", STF, what + "; key 16 (literal), value symbolic", quick=q, tq=600, tt=1800, unwind=6, miri=True,
+      exp=(nm in ("c12_store_enqueue_admit", "c12_store_enqueue_forced_reject")),
+      stubs=(STORAGE_STUBS + ["Keeper::insert -> panic (the write queue must not be reached on the reject / throttle path; reaching it is the reported failure)"]) if nm in ("c12_store_enqueue_reject", "c12_store_enqueue_throttled") else None)
 TB = "engine::block::tombstone::verif_kani"
 TF = "TombstoneLog::{open,append,calculate_slot_addr,slot_addr}, Tombstone::{read,write}, PageBuffer::{open,update,load,flush,locate} on a harness IoEngine/Partition over a byte array"
 h("C10", "foyer-storage", TB, "c10_t4_slot_addr", "T4 slot arithmetic", "TombstoneLog::calculate_slot_addr", "pages 1..=2^20, slot < 2^40 (symbolic)", quick=True, tq=300, exp=True)
